@@ -185,9 +185,21 @@ def run_rewire(res, G, names, T, params_extra, seed, budget_scale=1.0, ctx=None,
     if len(order) > 1 and seed % 2:
         order = order[::-1]            # a mapping has no order: EDGE_NAMES says which joint-degree column a topology is
         res.count("target_dict_order_differs_from_names")
-    tm = sut("JointExcessJointDegreeMatrices(target)", gcmpy.JointExcessJointDegreeMatrices, {TN.EJKS: {n: T[n] for n in order}, TN.EDGE_NAMES: list(names)})
+    tmap = {n: T[n] for n in order}
+    if seed % 5 == 1:
+        # the per-topology matrices as read-only mappings (a target loaded once and shared between runs)
+        import types
+        tmap = {n: types.MappingProxyType(dict(T[n])) for n in order}
+        res.count("targets_given_as_read_only_mappings")
+    tm = sut("JointExcessJointDegreeMatrices(target)", gcmpy.JointExcessJointDegreeMatrices, {TN.EJKS: tmap, TN.EDGE_NAMES: list(names)})
     params = {TN.NETWORK: net, TN.EJKS: tm}
     params.update(params_extra)
+    if seed % 7 == 2:
+        import numpy as np
+        for k_ in (TN.CONVERGENCE_LIMIT, TN.SEARCH_LIMIT):
+            if k_ in params:
+                params[k_] = np.int64(params[k_])        # limits read from a numpy array of settings
+        res.count("limits_given_as_numpy_integers")
     limit = params_extra.get(TN.CONVERGENCE_LIMIT, 10 * G.number_of_edges())
     budget_props = int((3000 * limit + 200000) * budget_scale)
     if cap:
